@@ -11,6 +11,10 @@ CLAIMED = {
         "For every enumerated container kind (indexed, xy per axis, histogram, and the three parametric models) x source mix (simple abs/rel, matrix cov/cor, abs/rel) x short history (add, disable, enable, value change, interleaved reads) the real container code is executed symbolically and total cov_mat == sum of enabled (sigma sigma^T) o rho at the CURRENT values, err^2 == diag, cor*sigma sigma^T == cov, cov*inverse == I, symmetry and PSD are proved for all values of data, errors, rho, matrices (n=2; n=3 in thorough).",
         "Trusted: symx, symnp, solver portfolio, the 10-line oracle in props/C02.py. Floats as reals. Outside: n>3, histories longer than the enumerated ones.",
         "DESIGN.md 4/C02", None),
+    "C04": (
+        "(1) Every operation history up to the bound (all sequences over set/read/mark/freeze/unfreeze/func=/replace/replace_child/element assignment on 7 graph shapes built from the real node classes and the Nexus API) is executed with symbolic leaf values and each read is proved equal to an independent from-scratch evaluator; call counters check 'at most once per read' and 'only if an input was assigned'; cycle-closing dependencies must raise and leave the graph usable. (2) Inductive step: from an ARBITRARY cache state (symbolic _stale/_frozen/_value satisfying the invariant) one real operation preserves the invariant and reads equal the from-scratch value, which extends (1) to histories of any length on those shapes.",
+        "Trusted: symx, z3, the recursive oracle evaluator, the invariant in props/C04.py (checked to hold after construction). Outside: GC of weakly referenced parents, larger graphs, side-effecting node functions, freeze of a stale node.",
+        "DESIGN.md 4/C04", "bounded symbolic histories + inductive invariant step on the real nexus classes (vx.symx + z3)"),
 }
 _NYB = "check not built yet in this round (design in DESIGN.md section 4); no claim is made"
-NA = {p: _NYB for p in ["C01","C03","C04","C05","C06","C07","C08","C09","C10","C11","C14","C15","C16","C17","C18","C19"]}
+NA = {p: _NYB for p in ["C01","C03","C05","C06","C07","C08","C09","C10","C11","C14","C15","C16","C17","C18","C19"]}
